@@ -164,3 +164,4 @@ def check(ctx):
         ok = len(cls) >= 1 and all(ctx.an.must(g, Call(AO + "store", transitive=False)) for g in cls)
         ctx.ob("R-PAIR", SI, "scope/child-stores-result", ok, "the closure run by a scoped coroutine always stores f()'s value in the shared packet" if ok else
                "the scoped child's closure does not (always) store its result: ScopedJoinHandle::join finds no packet", f.where())
+    shared.drops_do_not_block_unmasked(ctx)
